@@ -420,8 +420,9 @@ theorem read_some_z (n : Nat) (s : St) (hz : Z s) (hwf : WF s) (hc : 0 < s.chunk
     Z (read (some n) none s).2
     ∧ (∀ b, (read (some n) none s).1 = .ok b → (pending (read (some n) none s).2).length + n = (pending s).length)
     ∧ ((read (some n) none s).1 = .error .hang → (pending s).length < n ∨ n = 0)
-    ∧ (read (some n) none s).1 ≠ .error .timeout := by
-  obtain ⟨recs, hf, _, _, hok, herr⟩ := C03.read_some_spec n none s hwf hc
+    ∧ (read (some n) none s).1 ≠ .error .timeout
+    ∧ (pending s).length ≤ (pending (read (some n) none s).2).length + n := by
+  obtain ⟨recs, hf, _, htot, hok, herr⟩ := C03.read_some_spec n none s hwf hc
   have hzz := riTake_z (fuelFor s) none (riStart (some n) none s) s [] hz (Or.inl rfl)
   have hflat := hf.flat
   have hlen : (dataOf recs).flatten.length + (pending (read (some n) none s).2).length = (pending s).length := by
@@ -436,7 +437,7 @@ theorem read_some_z (n : Nat) (s : St) (hz : Z s) (hwf : WF s) (hc : 0 < s.chunk
       cases e with
       | some e => rfl
       | none => simp only; split <;> rfl
-  refine ⟨by rw [hstate]; exact hzz.1, ?_, ?_, ?_⟩
+  refine ⟨by rw [hstate]; exact hzz.1, ?_, ?_, ?_, by unfold C03.total at htot; omega⟩
   · intro b hb
     obtain ⟨h1, h2⟩ := hok b hb
     rw [h1] at h2
@@ -517,7 +518,8 @@ theorem sendLoop_rb : ∀ (f : Nat) (buf : Bytes) (ign : Bool) (t0 : Nat) (s : S
         (pending (sendLoop f buf true none ign t0 s).2).length + Tty.readBackLen buf = (pending s).length)
     ∧ ((sendLoop f buf true none ign t0 s).1 = .error .hang → (pending s).length < Tty.readBackLen buf)
     ∧ (sendLoop f buf true none ign t0 s).1 ≠ .error .timeout
-    ∧ (sendLoop f buf true none ign t0 s).1 ≠ .error .fuel := by
+    ∧ (sendLoop f buf true none ign t0 s).1 ≠ .error .fuel
+    ∧ (pending s).length ≤ (pending (sendLoop f buf true none ign t0 s).2).length + Tty.readBackLen buf := by
   intro f
   induction f with
   | zero => intro buf _ _ s hf; omega
@@ -526,7 +528,7 @@ theorem sendLoop_rb : ∀ (f : Nat) (buf : Bytes) (ign : Bool) (t0 : Nat) (s : S
     cases buf with
     | nil =>
       simp only [sendLoop]
-      exact ⟨hz, by intro _; simp [Tty.readBackLen], by intro h; simp at h, by simp, by simp⟩
+      exact ⟨hz, by intro _; simp [Tty.readBackLen], by intro h; simp at h, by simp, by simp, by omega⟩
     | cons b t =>
       unfold sendLoop
       simp only
@@ -541,8 +543,9 @@ theorem sendLoop_rb : ∀ (f : Nat) (buf : Bytes) (ign : Bool) (t0 : Nat) (s : S
           simp only
           obtain ⟨he, _⟩ := herr1 e rfl
           subst he
-          refine ⟨?_, by intro h; simp at h, by intro h; simp at h, by simp, by simp⟩
-          intro p hp; rw [hscr1] at hp; exact hz p hp
+          refine ⟨?_, by intro h; simp at h, by intro h; simp at h, by simp, by simp, ?_⟩
+          · intro p hp; rw [hscr1] at hp; exact hz p hp
+          · simp only [pending, hscr1]; omega
         | ok u =>
           simp only
           have hz1 : Z s1 := by intro p hp; rw [hscr1] at hp; exact hz p hp
@@ -551,16 +554,17 @@ theorem sendLoop_rb : ∀ (f : Nat) (buf : Bytes) (ign : Bool) (t0 : Nat) (s : S
           have hp1 : pending s1 = pending s := by simp only [pending, hscr1]
           simp only [remaining]
           have hn := readBackLen_eq ((b :: t).take s.slice)
-          obtain ⟨hz2, hok2, hhang2, hnt2⟩ := read_some_z (((b :: t).take s.slice).length + countNl ((b :: t).take s.slice)) s1 hz1 hwf1 hc1
+          obtain ⟨hz2, hok2, hhang2, hnt2, hle2⟩ := read_some_z (((b :: t).take s.slice).length + countNl ((b :: t).take s.slice)) s1 hz1 hwf1 hc1
           obtain ⟨recs, hfr2, _, _, _, herr2⟩ := C03.read_some_spec (((b :: t).take s.slice).length + countNl ((b :: t).take s.slice)) none s1 hwf1 hc1
           cases hrd : read (some (((b :: t).take s.slice).length + countNl ((b :: t).take s.slice))) none s1 with
           | mk rr s2 =>
-            rw [hrd] at hz2 hok2 hhang2 hnt2 hfr2 herr2
-            simp only at hz2 hok2 hhang2 hnt2 hfr2 herr2
+            rw [hrd] at hz2 hok2 hhang2 hnt2 hfr2 herr2 hle2
+            simp only at hz2 hok2 hhang2 hnt2 hfr2 herr2 hle2
+            have hsplit0 := readBackLen_split (b :: t) s.slice
             cases rr with
             | error e =>
-              simp only
-              refine ⟨hz2, by intro h; simp at h, ?_, ?_, ?_⟩
+              simp only [if_true]
+              refine ⟨hz2, by intro h; simp at h, ?_, ?_, ?_, by rw [hp1] at hle2; omega⟩
               · intro h
                 have he : e = .hang := by simpa using h
                 subst he
@@ -589,10 +593,10 @@ theorem sendLoop_rb : ∀ (f : Nat) (buf : Bytes) (ign : Bool) (t0 : Nat) (s : S
                 (by rw [hfr2.chunk]; exact hc1) (by rw [hsl2]; exact hsl)
                 (by rw [hfr2.slowDelay, hfr2.slowChunk, hf1.slowDelay, hf1.slowChunk]; exact hsc)
               rw [hsl2]
-              obtain ⟨h1, h2, h3, h4, h5⟩ := hih
+              obtain ⟨h1, h2, h3, h4, h5, h6⟩ := hih
               have hsplit := readBackLen_split (b :: t) s.slice
               have hcons := hok2 bb rfl
-              refine ⟨h1, ?_, ?_, h4, h5⟩
+              refine ⟨h1, ?_, ?_, h4, h5, by rw [hp1] at hle2; omega⟩
               · intro h
                 have := h2 h
                 rw [hp1] at hcons
